@@ -50,17 +50,15 @@ theorem C19_multi_buffer (sc : SCfg) (capsAtOf : Bytes → Nat → Option Caps) 
 
 /-- **C19 under -U, any printer configuration** (no `--only-matching`, no `--vimgrep`): when at least one match is
 kept, the block is printed from its replaced text, line by line; every line is a record of its own (line number
-`ln + i`, on every line the column of the first expansion), a missing terminator completed. Guard: under `--crlf`
-no line of the replaced text ends in a bare LF (finding F19). -/
+`ln + i`, on every line the column of the first expansion) and keeps its own terminator, a missing one completed —
+for every line terminator mode (finding F19 repaired in b0493c8). -/
 theorem C19_multi_records (sc : SCfg) (c : StdCfg) (capsAtOf : Bytes → Nat → Option Caps)
     (names : List (Bytes × Nat)) (buf : Bytes) (rs re absOff : Nat) (ln : Option Nat) (tmpl : Bytes)
     (hay : Bytes) (hhay : hay = cutHaystack sc buf re)
     (hml : sc.multiLine = true) (ho : c.onlyMatching = false) (hp : c.perMatch = false)
     (hs : Sane (capsAtOf hay) hay.length)
     (hk : kept (capsAtOf hay) hay rs re (isAtUnterminatedEnd sc.lt hay rs re) ≠ [])
-    (hok : braceOk tmpl = true) (henv : ∀ c, EnvOk (envOf hay names c))
-    (hcrlf : (splitLines sc.lt.asByte
-      (blockSpec (capsAtOf hay) names hay rs re (isAtUnterminatedEnd sc.lt hay rs re) tmpl)).all (crlfLineOk sc.lt) = true) :
+    (hok : braceOk tmpl = true) (henv : ∀ c, EnvOk (envOf hay names c)) :
     ∃ k, printReplacedBlock sc c capsAtOf names buf rs re absOff ln tmpl =
       (blockRecords sc.lt c absOff ln (optIf c.column k) 0 0
         (splitLines sc.lt.asByte
@@ -76,7 +74,6 @@ theorem C19_multi_records (sc : SCfg) (c : StdCfg) (capsAtOf : Bytes → Nat →
     unfold replacedText blockSpec
     rw [hexp]
   have := printReplacedBlock_eq sc c capsAtOf names buf rs re absOff ln tmpl hml ho hp hs hk
-    (by rw [htxt]; exact hcrlf)
   rw [htxt] at this
   exact this
 
@@ -89,15 +86,13 @@ theorem C19_multi (sc : SCfg) (c : StdCfg) (capsAtOf : Bytes → Nat → Option 
     (hpath : c.path = none) (hcol : c.column = false) (hboff : c.byteOffset = false)
     (hs : Sane (capsAtOf hay) hay.length)
     (hk : kept (capsAtOf hay) hay rs re (isAtUnterminatedEnd sc.lt hay rs re) ≠ [])
-    (hok : braceOk tmpl = true) (henv : ∀ c, EnvOk (envOf hay names c))
-    (hcrlf : (splitLines sc.lt.asByte
-      (blockSpec (capsAtOf hay) names hay rs re (isAtUnterminatedEnd sc.lt hay rs re) tmpl)).all (crlfLineOk sc.lt) = true) :
+    (hok : braceOk tmpl = true) (henv : ∀ c, EnvOk (envOf hay names c)) :
     printReplacedBlock sc c capsAtOf names buf rs re absOff none tmpl =
       (splitLines sc.lt.asByte
         (blockSpec (capsAtOf hay) names hay rs re (isAtUnterminatedEnd sc.lt hay rs re) tmpl)).flatMap
         (completed sc.lt) := by
   obtain ⟨k, hk'⟩ := C19_multi_records sc c capsAtOf names buf rs re absOff none tmpl hay hhay hml ho hp hs hk
-    hok henv hcrlf
+    hok henv
   rw [hk', blockRecords_plain sc.lt c absOff k hpath hcol hboff]
 
 /-- A block in which the printer keeps no match is printed unreplaced, by the C09 printer on the original bytes
@@ -167,9 +162,10 @@ example :
     simp only [hI]
     decide
 
-/-! ## The CRLF guard is forced -/
+/-! ## No CRLF guard: every line keeps its own terminator -/
 
-/-- Full statement of `C19_multi` without the CRLF guard. -/
+/-- Statement of `C19_multi` for ripgrep's own interpolation, any template and any line terminator mode: the printed
+block is the replaced text, every line of it with its own terminator (`completed` only adds a missing final one). -/
 def C19_multi_crlf_full : Prop :=
   ∀ (sc : SCfg) (capsAtOf : Bytes → Nat → Option Caps) (names : List (Bytes × Nat)) (buf : Bytes) (rs re : Nat)
     (tmpl : Bytes), sc.multiLine = true →
@@ -199,35 +195,24 @@ theorem firstByteMatcher_sane (hay : Bytes) (h : 1 ≤ hay.length) : Sane (first
       subst this; rfl
     · simp at hc
 
-/-- FALSE on the current tree (finding F19): `rg --crlf -U -r X a` on `a\\nb\\n` prints `X\\r\\nb\\r\\n` — the bare LF of
-each block line is rewritten to CRLF (the replace-all of the block is `X\\nb\\n`). -/
-theorem C19_multi_crlf_full_fails : ¬ C19_multi_crlf_full := by
-  intro h
+/-- Holds since b0493c8 (it was false before: finding F19, `a\\r\\n`-rewriting of bare-LF lines under `--crlf`). -/
+theorem C19_multi_crlf_full_holds : C19_multi_crlf_full := by
+  intro sc capsAtOf names buf rs re tmpl hml hs hk
+  obtain ⟨k, hk'⟩ := printReplacedBlock_eq sc {} capsAtOf names buf rs re 0 none tmpl hml rfl rfl hs hk
+  rw [hk', blockRecords_plain sc.lt {} 0 k rfl rfl rfl]
+
+/-- Regression witness for F19: `rg --crlf -U -r X a` on `a\\nb\\n` prints `X\\nb\\n` (before b0493c8:
+`X\\r\\nb\\r\\n`), and on `a\\r\\nb\\n` it prints `X\\r\\nb\\n`. -/
+example :
+    printReplacedBlock { lt := .crlf, multiLine := true } {} firstByteMatcher [] [97, 10, 98, 10] 0 4 0 none [88]
+      = [88, 10, 98, 10] ∧
+    printReplacedBlock { lt := .crlf, multiLine := true } {} firstByteMatcher [] [97, 13, 10, 98, 10] 0 5 0 none [88]
+      = [88, 13, 10, 98, 10] := by
   have hI : ∀ env, interpolate env [88] = [88] := fun env => Props.C19.interpolate_no_dollar env [88] (by decide)
-  have hkept : kept (firstByteMatcher [97, 10, 98, 10]) [97, 10, 98, 10] 0 4
-      (isAtUnterminatedEnd LineTerm.crlf [97, 10, 98, 10] 0 4) = [⟨[some ⟨0, 1⟩]⟩] := by decide
-  have hcut : cutHaystack { lt := .crlf, multiLine := true } [97, 10, 98, 10] 4 = [97, 10, 98, 10] := by decide
-  have := h { lt := .crlf, multiLine := true } firstByteMatcher [] [97, 10, 98, 10] 0 4 [88] rfl
-    (by rw [hcut]; exact firstByteMatcher_sane _ (by decide))
-    (by rw [hcut]; simp only; rw [hkept]; simp)
-  have hlhs : printReplacedBlock { lt := .crlf, multiLine := true } {} firstByteMatcher [] [97, 10, 98, 10] 0 4 0 none [88]
-      = [88, 13, 10, 98, 13, 10] := by
-    unfold printReplacedBlock replaceAllMulti replaceWithCapturesInContext
+  constructor <;>
+  · unfold printReplacedBlock replaceAllMulti replaceWithCapturesInContext
     simp only [hI]
     decide
-  have hrhs : replacedText { lt := .crlf, multiLine := true } firstByteMatcher [] [97, 10, 98, 10] 0 4 [88]
-      = [88, 10, 98, 10] := by
-    unfold replacedText
-    rw [hcut]
-    simp only
-    rw [hkept]
-    have hexp : (fun c => interpolate (envOf [97, 10, 98, 10] [] c) [88]) = fun _ => [88] := by
-      funext c; exact hI _
-    rw [hexp]
-    decide
-  rw [hlhs, hrhs] at this
-  revert this
-  decide
 
 /-- non-vacuity of `C19_multi`: `a\\nb` replaced by `X` in the block `a\\nb\\n` of an LF search satisfies every
 hypothesis, and the printed block is `X\\n`. -/
